@@ -1085,7 +1085,7 @@ func TestBulkClean(t *testing.T) {
 			be := NewBackend(kind, cc)
 			n := map[string]int{}
 			left := map[string]int{}
-			before, lenAfter := 0, 0
+			before, lenAfter, written, lost := 0, 0, 0, 0
 
 			synctest.Test(t, func(t *testing.T) {
 				ttl := map[string]time.Duration{"fresh": 3 * time.Hour, "recent": -time.Hour, "old": -5 * time.Hour}
@@ -1107,11 +1107,43 @@ func TestBulkClean(t *testing.T) {
 				}
 
 				before = be.Len()
+
+				// while the cycle runs a writer keeps storing fresh keys of its own: every Write that has returned must be
+				// readable afterwards (nothing else touches those keys)
+				stop := make(chan struct{})
+				done := make(chan struct{})
+
+				go func() {
+					defer close(done)
+
+					for i := 0; ; i++ {
+						select {
+						case <-stop:
+							return
+						default:
+						}
+
+						_ = be.Write(cache.WithTTL(context.Background(), 3*time.Hour, false), []byte(fmt.Sprintf("w-%07d", i)), "v1")
+						written++
+					}
+				}()
+
 				be.Cleanup()
-				lenAfter = be.Len()
+				close(stop)
+				<-done
+
+				for i := 0; i < written; i++ {
+					if rr := be.Read(context.Background(), []byte(fmt.Sprintf("w-%07d", i))); rr.Class != "hit" {
+						lost++
+					}
+				}
+
+				lenAfter = be.Len() - written + lost
 
 				_, _ = be.Walk(func(e Ent) error {
-					left[string(e.K[:strings.IndexByte(string(e.K), '-')])]++
+					if cls := string(e.K[:strings.IndexByte(string(e.K), '-')]); cls != "w" {
+						left[cls]++
+					}
 
 					return nil
 				})
@@ -1119,7 +1151,8 @@ func TestBulkClean(t *testing.T) {
 
 			_ = enc.Encode(map[string]interface{}{"kind": kind, "unlimited": unlimited, "before": before, "len_after": lenAfter,
 				"never": n["never"], "fresh": n["fresh"], "recent": n["recent"], "old": n["old"],
-				"left_never": left["never"], "left_fresh": left["fresh"], "left_recent": left["recent"], "left_old": left["old"]})
+				"left_never": left["never"], "left_fresh": left["fresh"], "left_recent": left["recent"], "left_old": left["old"],
+				"written_during": written, "lost_writes": lost})
 			res.Evaluations++
 			res.Steps += total
 		}
